@@ -100,3 +100,12 @@ impl GenericParamSet {
         visitor.result
     }
 }
+
+/// A type as it has to be written behind `&` / `&'a` / `&mut`: a bare `dyn A + B` or `impl A + B` needs parentheses there
+/// (`&dyn A + B` is ambiguous).
+pub fn ref_operand(ty: &Type) -> proc_macro2::TokenStream {
+    match ty {
+        Type::TraitObject(_) | Type::ImplTrait(_) => quote::quote!((#ty)),
+        _ => quote::quote!(#ty),
+    }
+}
